@@ -18,6 +18,7 @@ EXPLANATION = (
 EXPLANATION_ADDED = 'R3 also decides necessity: with inhibit_rst=false every closing path of an established, not-finished stream queues a Reset.'
 EXPLANATION_ADDED2 = " R1 also requires the dropped-flows consumer to close every notified flow irrespective of the slot's state; (R6) locally opened streams never get flow id 0, the value that means 'multiplexor dropped' on the dropped-flows channel (= C07.R1)."
 EXPLANATION = EXPLANATION + " Added while testing against seeded changes: " + EXPLANATION_ADDED + EXPLANATION_ADDED2
+EXPLANATION = EXPLANATION + ' Round 10: (R7) only the stream handle (own id) and the multiplexor handle (0) report on the dropped-flows queue.'
 ASSUMPTIONS = ["tokio mpsc unbounded send from Drop is non-blocking"]
 NOT_DECIDED = "absence of leaks over arbitrarily long histories (every way a slot leaves the map cleans it; whether every abandoned slot leaves the map depends on peer behaviour)"
 THOROUGH_CONFIGS = ["mux-nodefault", "mux-nohash"]
